@@ -20,6 +20,7 @@ import hv
 from hv.record import Recorder, h64, jsonable
 
 VERIF = hv.VERIF
+OUT = os.environ.get("HV_OUT") or VERIF  # where evidence/ and replays/ go (self-tests redirect it)
 TIERS = ("quick", "thorough")
 
 
@@ -163,11 +164,11 @@ def main(argv: list[str]) -> int:
     findings = load_findings()
     known_hits: dict[str, dict[str, Any]] = {}
     unlisted: list[dict[str, Any]] = []
-    os.makedirs(os.path.join(VERIF, "replays", pid), exist_ok=True)
+    os.makedirs(os.path.join(OUT, "replays", pid), exist_ok=True)
     for v in sorted(R.violations.values(), key=lambda v: (v["monitor"], json.dumps(v["where"], sort_keys=True))):
         name = f"{v['monitor']}-{h64([v['monitor'], v['where']]):016x}.json"
         rel = os.path.join("replays", pid, name)
-        with open(os.path.join(VERIF, rel), "w") as fh:
+        with open(os.path.join(OUT, rel), "w") as fh:
             json.dump({"property": pid, "seed": seed, "tier": tier, **v}, fh, indent=1, default=repr)
         v["replay"] = rel
         f = match_finding(pid, v, findings)
@@ -234,8 +235,8 @@ def write_evidence(prop: Any, R: Recorder, tier: str, seed: int, wall: float, kn
         "wall_s": round(wall, 3),
         "violations": len(unlisted),
     }
-    os.makedirs(os.path.join(VERIF, "evidence"), exist_ok=True)
-    path = os.path.join(VERIF, "evidence", f"{prop.ID}.json")
+    os.makedirs(os.path.join(OUT, "evidence"), exist_ok=True)
+    path = os.path.join(OUT, "evidence", f"{prop.ID}.json")
     with open(path + ".tmp", "w") as fh:
         json.dump(jsonable(ev), fh, indent=1)
         fh.write("\n")
